@@ -1,7 +1,10 @@
 package main
 
 import (
+	"bytes"
 	"fmt"
+	customtransport "github.com/uber-go/tally/v4/m3/customtransports"
+	"github.com/uber-go/tally/v4/thirdparty/github.com/apache/thrift/lib/go/thrift"
 	"math"
 	"time"
 
@@ -26,6 +29,7 @@ func runC16(c *mon.Ctx) {
 			}
 		}
 		c16Case(c, r, encs, calcs)
+		c16Utilities(c, r.Fork(55))
 		if i%6 == 0 {
 			// the reporter's own use of the calculator: the size it charges for a
 			// metric (measured with maximal placeholder values) must bound what the
@@ -302,4 +306,92 @@ func firstMetric(b m3thrift.MetricBatch) interface{} {
 		return nil
 	}
 	return b.Metrics[0]
+}
+
+var c16Ser = thrift.NewTSerializer()
+var c16ReadTr, _ = customtransport.NewTBufferedReadTransport(bytes.NewBuffer(nil))
+
+// c16Utilities: the two helpers around the codecs that keep state between
+// messages. (1) One long-lived TSerializer encodes 2-4 metrics in a row; the
+// caller keeps every result (as a queue of encoded messages would) and
+// decodes them afterwards: each must still be the metric it was made from.
+// (2) One long-lived TBufferedReadTransport is handed one packet after the
+// other (as a UDP server loop does); a packet with trailing bytes, or one cut
+// short, must not disturb the decoding of the next intact packet.
+func c16Utilities(c *mon.Ctx, r *mon.Rand) {
+	n := r.Range(2, 4)
+	ms := make([]m3thrift.Metric, n)
+	enc := make([][]byte, n)
+	strs := make([]string, n)
+	for i := range ms {
+		ms[i] = genMetric(r)
+		if i > 0 && r.Bool() && len(ms[i].Name) > 20 {
+			ms[i].Name = ms[i].Name[:20] // later messages that fit into what the earlier ones needed
+		}
+		var err error
+		if i%2 == 0 {
+			enc[i], err = c16Ser.Write(&ms[i])
+		} else {
+			strs[i], err = c16Ser.WriteString(&ms[i])
+			enc[i] = []byte(strs[i])
+		}
+		if err != nil {
+			c.Violation("serializer-error", map[string]interface{}{"why": err.Error(), "metric": fmt.Sprintf("%+v", ms[i])})
+			return
+		}
+	}
+	for i := range ms {
+		var out m3thrift.Metric
+		if err := thrift.NewTDeserializer().Read(&out, enc[i]); err != nil {
+			c.Violation("serializer-result-overwritten", map[string]interface{}{"why": fmt.Sprintf("message %d of %d encoded through one TSerializer no longer decodes after the later ones were encoded: %v", i, n, err), "metric": fmt.Sprintf("%.300s", fmt.Sprintf("%+v", ms[i]))})
+			return
+		}
+		if !metricEqual(normMetric(out), normMetric(ms[i])) {
+			c.Violation("serializer-result-overwritten", map[string]interface{}{"why": fmt.Sprintf("message %d of %d encoded through one TSerializer decodes to another metric after the later ones were encoded", i, n), "in": fmt.Sprintf("%.300s", fmt.Sprintf("%+v", ms[i])), "out": fmt.Sprintf("%.300s", fmt.Sprintf("%+v", out))})
+			return
+		}
+	}
+	c.Event("serializer-results-kept-and-decoded", int64(n))
+
+	p := m3.Compact
+	if r.Bool() {
+		p = m3.Binary
+	}
+	for k, packets := 0, r.Range(2, 5); k < packets; k++ {
+		b := m3thrift.MetricBatch{Metrics: []m3thrift.Metric{genMetric(r), genMetric(r)}, CommonTags: genTags(r, 3)}
+		data, err := newEncoder(p).batch(b)
+		if err != nil {
+			return
+		}
+		fed, kind := data, "intact"
+		switch r.Intn(4) {
+		case 0:
+			fed, kind = append(append([]byte(nil), data...), 0xde, 0xad, 0xbe), "with three trailing bytes"
+		case 1:
+			if k < packets-1 && len(data) > 8 {
+				fed, kind = data[:len(data)/2], "cut short"
+			}
+		}
+		c16ReadTr.Write(fed)
+		var got m3thrift.MetricBatch
+		derr := got.Read(protoFactory(p).GetProtocol(c16ReadTr))
+		if kind == "cut short" {
+			continue // expected to fail; what matters is the next packet
+		}
+		nb1, nb2 := got, b
+		nb1.CommonTags, nb2.CommonTags = normTags(nb1.CommonTags), normTags(nb2.CommonTags)
+		for i := range nb1.Metrics {
+			nb1.Metrics[i] = normMetric(nb1.Metrics[i])
+		}
+		m2 := make([]m3thrift.Metric, len(nb2.Metrics))
+		for i := range nb2.Metrics {
+			m2[i] = normMetric(nb2.Metrics[i])
+		}
+		nb2.Metrics = m2
+		if derr != nil || !batchEqual(nb1, nb2) {
+			c.Violation("read-transport-carries-bytes-over/"+protoName(p), map[string]interface{}{"why": fmt.Sprintf("packet %d (%s) handed to a long-lived TBufferedReadTransport after earlier packets (some with trailing bytes or cut short) does not decode to what was encoded: err=%v", k, kind, derr)})
+			return
+		}
+		c.Event("packets-decoded-through-one-read-transport", 1)
+	}
 }
